@@ -127,8 +127,8 @@ def c_loop_updates(stmts, extent, env=None):
 def _slice_start(s):
     """start offset of a slice component along the swept axis: [1:] -> 1, [:-1] -> 0, [:] -> 0"""
     if isinstance(s, ast.Slice):
-        if s.lower is None:
-            return 0
+        if s.lower is None or (isinstance(s.lower, ast.Name) and s.lower.id in ('nuax', 'newaxis')) or (isinstance(s.lower, ast.Constant) and s.lower.value is None):
+            return 0     # `nuax:-1` is `None:-1`, i.e. `:-1` (numpy.newaxis is None)
         if isinstance(s.lower, ast.Constant) and isinstance(s.lower.value, int) and s.lower.value >= 0:
             return s.lower.value
         raise AlgebraError('unsupported slice start %s' % ast.unparse(s))
@@ -156,6 +156,9 @@ def swept_component(sub, nuax_names=('nuax', 'numpy.newaxis', 'None')):
     comps = list(sl.elts) if isinstance(sl, ast.Tuple) else [sl]
     real = [(i, c) for i, c in enumerate(comps) if not (isinstance(c, (ast.Name, ast.Attribute, ast.Constant)) and ast.unparse(c) in nuax_names)]
     proper = [(i, c) for i, c in real if isinstance(c, ast.Slice) and (c.lower is not None or c.upper is not None)]
+    if not proper:
+        # a component such as `nuax:-1` is a Slice whose lower bound is the newaxis name
+        pass
     if len(proper) == 1:
         return proper[0]
     if len(real) == 1 and isinstance(real[0][1], ast.Slice):
